@@ -278,6 +278,19 @@ class SymBool:
     def __xor__(self, o):
         return SymBool(z3.Xor(self.e, _b(o)))
 
+    # bool ordering: False < True
+    def __lt__(self, o):
+        return SymBool(z3.And(z3.Not(self.e), _b(o)))
+
+    def __gt__(self, o):
+        return SymBool(z3.And(self.e, z3.Not(_b(o))))
+
+    def __le__(self, o):
+        return SymBool(z3.Or(z3.Not(self.e), _b(o)))
+
+    def __ge__(self, o):
+        return SymBool(z3.Or(self.e, z3.Not(_b(o))))
+
     __rxor__ = __xor__
 
     def __int__(self):
